@@ -732,7 +732,7 @@ Proof.
   - apply run_etcd_inv.
   - intros k. unfold final_kv.
     destruct (final_kv_rel evs [] (fun _ => None) I (fun _ => eq_refl)) as [Hs Hl].
-    change (fold_left (fun kv o => match o with EPut k1 v1 => kv_set k1 v1 kv | EDel k1 => kv_del k1 kv end) evs [])
+    change (fold_left (fun kv o => match o with EPut k1 v1 => kv_set k1 v1 kv | EDel k2 => kv_del k2 kv end) evs [])
       with (fold_left kv_step evs []).
     unfold live. rewrite Hl, (puts_live _ _ Hs). unfold kv_live.
     destruct (kv_get k (fold_left kv_step evs [])); reflexivity.
@@ -773,3 +773,179 @@ Theorem etcd_lists_nonempty evs h l : es_tab (run_etcd up evs) h = Some l -> l <
 Proof. intros H. destruct (run_etcd_inv evs) as [_ [_ H2 _]]. now apply (H2 h l). Qed.
 
 End Etcd.
+
+(* =============================== witnesses ============================================ *)
+(* The defects of the code as it was, on the faithful model of that code, and the
+   one open finding of the current code.  The same histories are replayed on the
+   real implementation by the harness (directed cases 900001..900102). *)
+Definition wit_url (host s : string) : string * purl := (s, mkPurl "https" host host "" s s).
+Definition wit_tbl : list (string * purl) :=
+  [ wit_url "h1.example" "https://h1.example/a/"; wit_url "h1.example" "https://h1.example/b/";
+    wit_url "h1.example" "https://h1.example/c/"; wit_url "h1.example" "https://h1.example/a/b/";
+    wit_url "h2.example" "https://h2.example/a/";
+    wit_url "h1.example" "https://h1.example/a/x"; wit_url "h1.example" "https://h1.example/a/b/x";
+    wit_url "h1.example" "https://h1.example/x"; wit_url "h2.example" "https://h2.example/a/x" ].
+Definition wit_up (s : string) : option purl :=
+  match find (fun e => fst e =? s) wit_tbl with Some e => Some (snd e) | None => None end.
+Definition wit_sec (u : string) (secret : N) : section := mkSec u secret None None None.
+Definition wit_cfg (ids : list N) (secs : list (N * section)) : config := mkCfg false false 0 None [] ids secs.
+
+Definition wit_abc := wit_cfg [1;2;3]%N [(1%N, wit_sec "https://h1.example/a/" 1); (2%N, wit_sec "https://h1.example/b/" 2); (3%N, wit_sec "https://h1.example/c/" 3)].
+Definition wit_c := wit_cfg [3]%N [(3%N, wit_sec "https://h1.example/c/" 3)].
+Definition wit_B := wit_cfg [2]%N [(2%N, wit_sec "https://h1.example/a/b/" 2)].
+Definition wit_AB := wit_cfg [1;2]%N [(1%N, wit_sec "https://h1.example/a/" 1); (2%N, wit_sec "https://h1.example/a/b/" 2)].
+Definition wit_a := wit_cfg [1]%N [(1%N, wit_sec "https://h1.example/a/" 1)].
+Definition wit_none := wit_cfg [0]%N [].
+Definition wit_old := mkCfg false false 7 None ["h1.example"] [0%N] [].
+Definition wit_h2 := wit_cfg [1]%N [(1%N, wit_sec "https://h2.example/a/" 1)].
+
+Definition answers_differ (a b : lres) : Prop := answer_of a <> answer_of b.
+
+(* three backends on one host reloaded to one: index out of range in UpsertHost *)
+Lemma unrepaired_reload_panics : run_chain_unrepaired wit_up wit_abc [wit_c] = None.
+Proof. vm_compute. reflexivity. Qed.
+(* existing [B], new [A;B] gives [B;A]: the more specific prefix wins after the reload, not after a restart *)
+Lemma unrepaired_reload_order :
+  exists st, run_chain_unrepaired wit_up wit_B [wit_AB] = Some st /\
+    answers_differ (lookup_static wit_up st "https://h1.example/a/b/x")
+                   (lookup_static wit_up (fresh wit_up wit_AB) "https://h1.example/a/b/x").
+Proof. eexists. split; [vm_compute; reflexivity|]. vm_compute. discriminate. Qed.
+(* reload to an empty list keeps everything *)
+Lemma unrepaired_reload_empty_list :
+  exists st, run_chain_unrepaired wit_up wit_a [wit_none] = Some st /\
+    answers_differ (lookup_static wit_up st "https://h1.example/a/x")
+                   (lookup_static wit_up (fresh wit_up wit_none) "https://h1.example/a/x").
+Proof. eexists. split; [vm_compute; reflexivity|]. vm_compute. discriminate. Qed.
+(* OPEN: the current code does not leave (or enter) the deprecated modes on reload *)
+Lemma reload_deprecated_mode :
+  exists st, run_chain wit_up wit_old [wit_h2] = Some st /\
+    answers_differ (lookup_static wit_up st "https://h1.example/x")
+                   (lookup_static wit_up (fresh wit_up wit_h2) "https://h1.example/x") /\
+    answers_differ (lookup_static wit_up st "https://h2.example/a/x")
+                   (lookup_static wit_up (fresh wit_up wit_h2) "https://h2.example/a/x").
+Proof. eexists. split; [vm_compute; reflexivity|]. split; vm_compute; discriminate. Qed.
+
+Definition wit_e (u : string) (secret : N) : option einfo := Some (mkE u secret 0 0 0).
+(* etcd: a key moves to another host and is deleted: the old host keeps the backend *)
+Lemma unrepaired_etcd_host_change : exists up evs probe,
+  answer_of (lookup_etcd up (run_etcd_unrepaired up evs) probe) <>
+  answer_of (lookup_etcd up (fresh_etcd_unrepaired up (final_kv evs)) probe).
+Proof. exists wit_up, [EPut 1 (wit_e "https://h1.example/a/" 1); EPut 1 (wit_e "https://h2.example/a/" 2); EDel 1], "https://h1.example/a/x". vm_compute. discriminate. Qed.
+(* etcd: an invalid value over a valid one keeps the old backend *)
+Lemma unrepaired_etcd_invalid_over_valid : exists up evs probe,
+  answer_of (lookup_etcd up (run_etcd_unrepaired up evs) probe) <>
+  answer_of (lookup_etcd up (fresh_etcd_unrepaired up (final_kv evs)) probe).
+Proof. exists wit_up, [EPut 1 (wit_e "https://h1.example/a/" 1); EPut 1 None], "https://h1.example/a/x". vm_compute. discriminate. Qed.
+(* etcd: the same url under two keys, written in the other order *)
+Lemma unrepaired_etcd_order : exists up evs probe,
+  answer_of (lookup_etcd up (run_etcd_unrepaired up evs) probe) <>
+  answer_of (lookup_etcd up (fresh_etcd_unrepaired up (final_kv evs)) probe).
+Proof. exists wit_up, [EPut 2 (wit_e "https://h1.example/a/" 2); EPut 1 (wit_e "https://h1.example/a/" 1)], "https://h1.example/a/x". vm_compute. discriminate. Qed.
+
+(* the hypotheses of the reload theorem are met by a chain that does something *)
+Lemma new_style_witness : Forall new_style [wit_abc; wit_c; wit_none; wit_AB].
+Proof. repeat constructor; try discriminate; reflexivity. Qed.
+Lemma new_style_witness_answers :
+  exists st, run_chain wit_up wit_abc [wit_c; wit_none; wit_AB] = Some st /\
+    answer_of (lookup_static wit_up st "https://h1.example/a/b/x") = ASome (1%N, 1%N, 0%Z, 0%Z, 0%Z, false) /\
+    answer_of (lookup_static wit_up st "https://h1.example/x") = ANone.
+Proof. eexists. split; [vm_compute; reflexivity|]. split; vm_compute; reflexivity. Qed.
+
+(* =============================== the property as trace predicate ==================== *)
+From Verif Require Import corr.Run_C13.
+
+Lemma proj_eqb_refl a : proj_eqb a a = true.
+Proof.
+  destruct a as [[[[[i s] l] m] c] k]. unfold proj_eqb.
+  rewrite !N.eqb_refl, !Z.eqb_refl, Bool.eqb_reflx. reflexivity.
+Qed.
+Lemma answer_eqb_refl a : answer_eqb a a = true.
+Proof. destruct a; cbn; auto using proj_eqb_refl. Qed.
+
+Definition lookup_equiv_static (up : string -> option purl) (s1 s2 : sstate) : Prop :=
+  forall probe, answer_of (lookup_static up s1 probe) = answer_of (lookup_static up s2 probe).
+Definition lookup_equiv_etcd (up : string -> option purl) (s1 s2 : estate) : Prop :=
+  forall probe, answer_of (lookup_etcd up s1 probe) = answer_of (lookup_etcd up s2 probe).
+
+Lemma reload_eq_fresh up c0 cs : Forall (new_style) (c0 :: cs) ->
+  exists st, run_chain up c0 cs = Some st /\ lookup_equiv_static up st (fresh up (last cs c0)).
+Proof.
+  intros Hn. destruct (reload_eq_fresh_state up c0 cs Hn) as (st & Hr & He). exists st. split; [exact Hr|].
+  intros probe. now rewrite (lookup_state_eq up st _ probe He).
+Qed.
+
+Lemma removed_url_refused up c0 cs probe : Forall new_style (c0 :: cs) ->
+  lookup_static up (fresh up (last cs c0)) probe = LRes None ->
+  exists st, run_chain up c0 cs = Some st /\ lookup_static up st probe = LRes None.
+Proof.
+  intros Hn Hf. destruct (reload_eq_fresh_state up c0 cs Hn) as (st & Hr & He). exists st. split; [exact Hr|].
+  now rewrite (lookup_state_eq up st _ probe He).
+Qed.
+
+Lemma etcd_eq_fresh_equiv up evs : lookup_equiv_etcd up (run_etcd up evs) (fresh_etcd up (final_kv evs)).
+Proof. intros probe. now rewrite etcd_eq_fresh. Qed.
+
+Section Traces.
+Context (up : string -> option purl).
+
+Definition st_ok (st : option (sstate * config)) : Prop :=
+  match st with None => True | Some (s, c) => state_eq s (fresh up c) /\ new_style c end.
+
+Lemma static_trace_from ops : forall st, st_ok st ->
+  Forall new_style (flat_map op_config ops) -> P_C13 (mtrace_static up st ops) = true.
+Proof.
+  induction ops as [|o r IH]; intros st Hst Hn; [reflexivity|].
+  cbn [flat_map] in Hn. apply Forall_app in Hn as [Ho Hr].
+  destruct o as [c|c|e|u]; cbn [mtrace_static].
+  - (* OInit *)
+    unfold P_C13 in *. cbn [forallb snd andb]. apply IH; [|exact Hr].
+    cbn. split; [repeat split|]. now inversion Ho.
+  - (* OReload *)
+    destruct st as [[s c0]|]; [|now apply IH].
+    destruct Hst as [He Hc0]. inversion Ho as [|? ? Hc _]; subst.
+    destruct (fresh_new_style up c0 Hc0) as (F1 & F2 & F3).
+    destruct He as (E1 & E2 & E3).
+    destruct (reload_table up s c ltac:(congruence)) as (s' & Hrl & R1 & R2 & R3).
+    rewrite Hrl. unfold P_C13 in *. cbn [forallb snd andb]. apply IH; [|exact Hr].
+    destruct (fresh_new_style up c Hc) as (G1 & G2 & G3).
+    cbn. split; [|exact Hc]. split; [congruence|]. split; [congruence|]. intros h. now rewrite R3, G3.
+  - (* OEvent: not applicable *)
+    destruct st as [[s c0]|]; now apply IH.
+  - (* OProbe *)
+    destruct st as [[s c0]|]; [|now apply IH].
+    unfold P_C13 in *. cbn [forallb snd]. destruct Hst as [He Hc0].
+    rewrite (lookup_state_eq up s _ u He), answer_eqb_refl. cbn [andb]. apply IH; [|exact Hr]. cbn. auto.
+Qed.
+
+(* every history of starts, reloads and lookups with new-style configurations *)
+Lemma static_trace ops : Forall new_style (flat_map op_config ops) -> P_C13 (mtrace_static up None ops) = true.
+Proof. apply static_trace_from. exact I. Qed.
+
+Lemma etcd_trace_from ops : forall evs,
+  P_C13 (mtrace_etcd up (run_etcd up evs) (final_kv evs) ops) = true.
+Proof.
+  induction ops as [|o r IH]; intros evs; [reflexivity|].
+  destruct o as [c|c|e|u]; cbn [mtrace_etcd]; try apply IH.
+  - unfold P_C13 in *. cbn [forallb snd andb].
+    specialize (IH (evs ++ [e])%list). unfold run_etcd, final_kv in IH. rewrite !fold_left_app in IH. cbn [fold_left] in IH.
+    exact IH.
+  - unfold P_C13 in *. cbn [forallb snd]. rewrite etcd_eq_fresh, answer_eqb_refl. cbn [andb]. apply IH.
+Qed.
+
+(* every history of etcd events and lookups *)
+Lemma etcd_trace ops : P_C13 (mtrace_etcd up einit [] ops) = true.
+Proof. apply (etcd_trace_from ops []). Qed.
+
+(* never a panic, whatever the configurations (also the deprecated modes) *)
+Lemma static_trace_no_panic ops : forall st, ~ In VPanic (map snd (mtrace_static up st ops)).
+Proof.
+  induction ops as [|o r IH]; intros st; [intros []|].
+  destruct o as [c|c|e|u]; cbn [mtrace_static].
+  - cbn. intros [H|H]; [discriminate|now apply IH in H].
+  - destruct st as [[s c0]|]; [|apply IH]. destruct (reload up s c) eqn:E.
+    + cbn. intros [H|H]; [discriminate|now apply IH in H].
+    + exfalso. now apply (reload_no_panic up s c).
+  - destruct st as [[s c0]|]; apply IH.
+  - destruct st as [[s c0]|]; [|apply IH]. cbn. intros [H|H]; [discriminate|now apply IH in H].
+Qed.
+End Traces.
